@@ -290,7 +290,7 @@ def run(ctx):
             bad[tid] = "crash_" + crash[0]["etype"]
     for tid, clause in sorted(bad.items()):
         t, n, p = plans[tid] if 0 <= tid < len(plans) else (None, None, None)
-        desc = json.dumps(dict(tmc=t, ncalls=n, plan=[[nm, [[[k, (round(v, 6) if isinstance(v, float) else v)] for k, v in kd] for kd in ks]] for nm, ks in (p or [])]))
+        desc = json.dumps(dict(tmc=t, ncalls=n, plan=[[nm, [[[k, (round(v, 9) if isinstance(v, float) else v)] for k, v in kd] for kd in ks]] for nm, ks in (p or [])]))
         key = f"history:{common.oid_of('C14', dict(tmc=t, ncalls=n, plan=p))}:{clause}"
         ctx.violation(key, f"{clause} in recorded run {desc}", dict(kind="C14", job=[tid, t, n, p], clause=clause))
     ctx.cov["distinct_digests"] = len(dig)
@@ -310,7 +310,7 @@ def run(ctx):
             bad2[tid] = "crash_" + crash[0]["etype"]
     for tid, clause in sorted(bad2.items()):
         t, n, p = plans[tid]
-        desc = json.dumps(dict(target="iron", tmc=t, ncalls=n, plan=[[nm, [[[k, (round(v, 6) if isinstance(v, float) else v)] for k, v in kd] for kd in ks]] for nm, ks in p]))
+        desc = json.dumps(dict(target="iron", tmc=t, ncalls=n, plan=[[nm, [[[k, (round(v, 9) if isinstance(v, float) else v)] for k, v in kd] for kd in ks]] for nm, ks in p]))
         key = f"history:iron:{common.oid_of('C14', dict(tmc=t, ncalls=n, plan=p))}:{clause}"
         ctx.violation(key, f"{clause} in recorded run {desc}", dict(kind="C14", job=[tid, t, n, p, "iron"], clause=clause))
     selftest(ctx, [t for t in traces if t[0]["tid"] not in bad], hdr, len(dig))
